@@ -11,7 +11,21 @@ CLAIMED = {
          "Theorems over M-Store (all operation sequences) checked by the Lean kernel; the model is tied to crates/cache by replaying random operation sequences through the real Store and the model and by regenerating SCHEMA_VERSION/BLOB_MAGIC from source.",
          "Trusted: Lean kernel, BLAKE3 as injective naming, toml round-trip, atomic_write success, harness + check scripts.",
          "DESIGN.md §4 C29"),
+ "C04": ("proof", "Lean 4 proof over a model of Incremental::open/save with an opaque analyzer (miss-set superset, incremental = clean for every edit history, diagnostics replay/dedup) + correspondence (model predicts the restore count of every warm CLI run) + fresh-cache oracle on generated edit histories",
+         "Theorems (all project states, all histories) about the cache protocol are kernel-checked; the analyzer is opaque in the model, so its recorded dependency relation is validated by the CLI differential (warm vs fresh-cache run after every step), not verified.",
+         "Trusted: Lean kernel; hypotheses DepSound/NoDeletedDep about the analyzer; BLAKE3, toml, file mtimes; tools/proj.py generator and diagnostics canonicaliser.",
+         "DESIGN.md §4 C04"),
+ "C12": ("proof", "Lean 4 proof about a model of split_comment_token / end_line / end_column over code-point lists + correspondence (hx tokens vs vmodel tokens) + independent sequential-scan oracle on every token of generated sources",
+         "Position theorems hold for every comment run and every token text (no length bound); the lexer's own positions (parol/scnr2) are trusted and validated per token by the oracle.",
+         "Trusted: Lean kernel; parol/scnr2 token positions; regex crate = hand-written scanner (tested against the real regex).",
+         "DESIGN.md §4 C12"),
+ "C23": ("proof", "Lean 4 proof about a model of the migrator's token re-emission (push_token, walker filter) + correspondence (model predicts the migrated text) + oracle (output parses; token/comment streams equal minus the removed annotations)",
+         "Content/position theorems for every token list; old parser and old walk order are trusted; three recorded findings (annotation comments dropped, string escapes, `mixin` keyword) are keyed by verified signature.",
+         "Trusted: Lean kernel; the previous-grammar parser; tools/gen.py extraction of Migrator::migratable.",
+         "DESIGN.md §4 C23"),
 }
+
+HOLD = {"C23"}      # built, waiting for a green run on the current tree
 
 PENDING_REASON = "not claimed yet: check under construction (see DESIGN.md §6 order of construction)"
 
@@ -19,7 +33,7 @@ PENDING_REASON = "not claimed yet: check under construction (see DESIGN.md §6 o
 def main():
     checks = []
     for pid in ALL:
-        if pid not in CLAIMED:
+        if pid not in CLAIMED or pid in HOLD:
             continue
         cat, tech, text, note, ref = CLAIMED[pid]
         checks.append({
@@ -40,16 +54,16 @@ def main():
             "guard": "--cfg veryl_verif",
             "enable": "RUSTFLAGS='--cfg veryl_verif' (set in /verif/harness/.cargo/config.toml and by tools/vlib.py for the CLI build)",
             "baseline_off_cmd": "cd /repo && cargo test --workspace --no-fail-fast --offline",
-            "source_commits": [],
+            "source_commits": ["d4e706f", "8782ed3"],
             "add_only": True,
         },
         "engines": [
             {"name": "lean4+hx", "path": "/verif/lean, /verif/harness, /verif/tools",
-             "serves_properties": sorted(CLAIMED),
+             "serves_properties": sorted(set(CLAIMED) - HOLD),
              "kind_free_text": "Lean 4 models + theorems (lake project VerylModel, driver vmodel), Rust differential harness hx with path deps on /repo/crates, python check driver"},
         ],
         "checks": checks,
-        "not_applicable": [{"property_id": p, "reason": PENDING_REASON} for p in ALL if p not in CLAIMED],
+        "not_applicable": [{"property_id": p, "reason": PENDING_REASON} for p in ALL if p not in CLAIMED or p in HOLD],
         "notes": "See DESIGN.md. Every check rebuilds the harness/CLI from /repo's working tree, regenerates lean/VerylModel/Gen/*, rebuilds and audits the Lean theorems, then runs the correspondence and oracle comparison.",
     }
     with open("/verif/MANIFEST.json", "w") as fh:
